@@ -39,7 +39,7 @@ CFG = {
                  "rebuild; predicate (b) on dumps + harness closure + (check (= e1 e2))); refresh_rows_for_values re-stamps "
                  "the rows mentioning dirty ids and semi-naive = naive after every command (lockstep engines, 26 rule "
                  "templates); parallel get_or_insert races; which strategy the engine picks (threshold) is observed only "
-                 "through the Big sessions and the inc_no_val_index mutation; Map key collisions excluded by the generator",
+                 "through the Big sessions (incl. fixed two-step union chains per kind and interning order) and the inc_no_val_index / rt_c14 mutations; Map key collisions excluded by the generator",
     "assumptions": [
         "ids are unbounded nat; hash buckets are modelled by a perfect hash (locator = contents at filing time)",
         "container ids are never unioned by the user (container sorts are not eq-sorts): R_union requires non-container classes",
